@@ -794,6 +794,32 @@ def policy(repo, tier):
                            "; ".join(r[2] for r in rebinders[:4]) or "no function that extraction code reaches rebinds a module-level name", "package", definite=False)
     rb["replay_hint"] = {"context_managers": [[rel, q] for (rel, q, _w) in rebinders if O.is_context_manager(an.fns[(rel, q)])]}
     obls.append(rb)
+    # H13 (schedules): a module-level name that a function rebinds AROUND a computation reading it (save / set / compute / restore, or a
+    # context manager setting it for its with-body) is a dynamically scoped parameter shared by all threads: needs a lock or a thread-local
+    dyn, dyn_fns = [], set()
+    for (rel, q), afn in sorted(an.fns.items()):
+        for nm in sorted(afn.globals_decl):
+            sites_nm = [n for n in afn.own if isinstance(n, ast.Name) and n.id == nm and isinstance(n.ctx, (ast.Store, ast.Del))]
+            if not sites_nm or lazy_name(an, afn, nm):
+                continue
+            readers = {k_ for k_, g in an.fns.items() if k_[0] == rel and k_ != (rel, q) and nm not in g.locals
+                       and any(isinstance(n, ast.Name) and n.id == nm and isinstance(n.ctx, ast.Load) for n in g.own)}
+            inside = readers & O.callee_closure(an, (rel, q))
+            if O.is_context_manager(afn):
+                inside = readers                                  # the with-body runs while the name is set
+            if not inside:
+                continue
+            if all(O.site_locked(an, afn, n) for n in sites_nm):
+                continue
+            dyn.append(f"{base(rel)}::{q} sets global {nm} while {sorted(k_[1] for k_ in inside)[:3]} read(s) it")
+            dyn_fns |= {q.split('.')[-1]} | {k_[1].split('.')[-1] for k_ in inside}
+            dyn_rel = rel
+    dy = ground_obligation("C15/package/schedule#no-module-level-name-is-set-around-a-computation-that-reads-it", not dyn,
+                           "; ".join(dyn[:4]) + (" -- two overlapping calls with different settings see each other's value" if dyn else
+                                                 "no function rebinds a module-level name that code running inside it reads (or it does so under a lock)"),
+                           "package", definite=False)
+    dy["replay_hint"] = {"rel": dyn_rel if dyn else None, "functions": sorted(dyn_fns), "two_switch": True}
+    obls.append(dy)
     # H5c: a mutable default argument that the function mutates is module-level state in disguise
     md = []
     for (rel, q), afn in sorted(an.fns.items()):
